@@ -223,6 +223,32 @@ class MultiRun:
         else:
             self.trainer()
 
+    def read_all_via_trainer(self):
+        """-> ([(pos, neg) per cell], ok): the accumulated parts are read, then applied by ONE trainer.update() (every
+        updater exactly once, however many cells share it), then discarded; ok = every parameter changed by exactly
+        pos - neg of its updater."""
+        seen, before, parts = {}, {}, []
+        for j, layer in enumerate(self.layers):
+            conn = layer.connection
+            acc = getattr(conn.updater, self.param)
+            ref = getattr(conn, self.param)
+            pos = torch.zeros_like(ref, dtype=torch.float64) if acc.pos is None else acc.pos.detach().to(torch.float64).clone()
+            neg = torch.zeros_like(ref, dtype=torch.float64) if acc.neg is None else acc.neg.detach().to(torch.float64).clone()
+            parts.append((pos.reshape(ref.shape), neg.reshape(ref.shape)))
+            if id(conn) not in seen:
+                seen[id(conn)] = (conn, j)
+                before[id(conn)] = ref.detach().to(torch.float64).clone()
+        self.trainer.update()
+        ok = True
+        for cid, (conn, j) in seen.items():
+            now = getattr(conn, self.param).detach().to(torch.float64)
+            want = before[cid] + parts[j][0] - parts[j][1]
+            # (learned delays are confined to the connection's delay range by its setter: only weights are compared)
+            if self.param == "weight" and not torch.allclose(now, want, rtol=1e-5, atol=1e-6):
+                ok = False
+            delattr(conn.updater, self.param)          # (CellTrainer.update applies without clearing)
+        return parts, ok
+
     def read(self, j: int = 0, apply=True):
         """-> (pos, neg) of cell j as float64 tensors (an absent part is zero); then apply + clear
         (connection.update()) or only clear."""
